@@ -51,6 +51,25 @@ pub fn run(thorough: bool) -> Vec<Part> {
         let limits = Limits { max_states: 12_000_000, max_secs: if thorough { 1500.0 } else { 120.0 }, ..Default::default() };
         let st = bfs(&cfg, &limits, workers());
         record(&mut part, "expect-alphabet", &st);
+        {
+            // a response (interim or the application's answer) stays partly written while further
+            // requests are read: what is due stays due
+            for (name, st) in [
+                ("answered request, then an Expect request, then a plain one", &b"GET / HTTP/1.0\r\n\r\nPUT /a HTTP/1.1\r\nExpect: 100-continue\r\nContent-Length: 3\r\n\r\nabcGET /t HTTP/1.1\r\n\r\n"[..]),
+                ("two Expect requests back to back", &b"PUT /a HTTP/1.0\r\nExpect: 100-continue\r\nContent-Length: 2\r\n\r\nxyPUT /b HTTP/1.1\r\nContent-Length: 1\r\nExpect: 100-continue\r\n\r\nz"[..]),
+            ] {
+                let mut scfg = Cfg::base("C13", &format!("partly written output while further requests arrive: {}", name), vec![], 40);
+                scfg.stream = Some(st.to_vec());
+                scfg.empty_reads = false;
+                scfg.answer_requests = true;
+                scfg.write_shorts = true;
+                let sts = bfs(&scfg, &Limits { max_states: 3_000_000, max_secs: if thorough { 900.0 } else { 40.0 }, ..Default::default() }, workers());
+                record(&mut part, &scfg.label, &sts);
+                for (v, _) in &sts.violations {
+                    part.violations.push(v.clone());
+                }
+            }
+        }
         if thorough {
             let mut full = Cfg::base("C13", "expect-alphabet-full", alphabet_full(), 40);
             full.allow_defer = true;
